@@ -73,6 +73,28 @@ def run_checks(sid, tier, props):
     finally:
         sh('git -C /repo checkout -- .')
     return out
+def run_checks_scratch(sid, tier, props, extra=''):
+    """Same as run_checks but on a scratch copy of /repo (lets long runs proceed while /repo stays untouched)."""
+    import tempfile
+    d = f'/verif/seeded/{sid}'
+    tmp = tempfile.mkdtemp(prefix='seedrun-')
+    out = {}
+    try:
+        dst = os.path.join(tmp, 'repo')
+        shutil.copytree('/repo', dst, ignore=shutil.ignore_patterns('.git'))
+        rc, o = sh(f'git apply {d}/patch.diff', cwd=dst)
+        if rc != 0:
+            rc, o = sh(f'patch -p1 < {d}/patch.diff', cwd=dst)
+            if rc != 0:
+                return {'apply': 'failed: ' + o[-300:]}
+        for p in props:
+            t0 = time.time()
+            rc, o = sh(f'./check {p} {tier} --noevidence --repo {dst} {extra}', cwd='/verif', timeout=14400)
+            lines = [l for l in o.splitlines() if l.startswith(('VIOLATION', '  harness', 'KNOWN', 'INCONCLUSIVE', 'symgo:'))]
+            out[p + ('' if tier == 'quick' else '@' + tier)] = {'tier': tier, 'exit': rc, 'detected': rc == 1, 'wall_s': round(time.time() - t0, 1), 'lines': [l[:260] for l in lines[:6]], 'on': 'scratch copy of /repo with the patch applied'}
+    finally:
+        shutil.rmtree(tmp, ignore_errors=True)
+    return out
 def results():
     rows = []
     for mf in sorted(glob.glob('/verif/seeded/*/meta.json')):
@@ -111,6 +133,15 @@ elif cmd == 'run':
     meta = json.load(open(os.path.join(d, 'meta.json')))
     meta.setdefault('checks', {}).update(run_checks(sid, tier, props))
     meta['ran'].append('tools_seeded.py run ' + ' '.join(sys.argv[2:]))
+    json.dump(meta, open(os.path.join(d, 'meta.json'), 'w'), indent=1)
+    print(json.dumps(meta['checks'], indent=1))
+elif cmd == 'runscratch':
+    sid = sys.argv[2]; tier = sys.argv[3] if len(sys.argv) > 3 else 'quick'
+    props = sys.argv[4:] or [sid[:3]]
+    d = f'/verif/seeded/{sid}'
+    meta = json.load(open(os.path.join(d, 'meta.json')))
+    meta.setdefault('checks', {}).update(run_checks_scratch(sid, tier, props, os.environ.get('SEED_EXTRA', '')))
+    meta['ran'].append('tools_seeded.py runscratch ' + ' '.join(sys.argv[2:]))
     json.dump(meta, open(os.path.join(d, 'meta.json'), 'w'), indent=1)
     print(json.dumps(meta['checks'], indent=1))
 elif cmd == 'results':
